@@ -1014,7 +1014,7 @@ func main() {
 		gzipDecode("bad-isize", wrap(bad2), nil, -1, "")
 		// pooled readers: a member that fails (header, mid-stream, trailer, bomb) followed at once
 		// by a valid member -- the valid one must decode exactly as if nothing had happened before
-		for i := 0; i < c.N(24, 400); i++ {
+		for i := 0; i < c.N(24, 100); i++ {
 			d := r.Bytes(r.Range(1, 400))
 			if r.Bool() {
 				d = bytes.Repeat(d[:1+r.Intn(len(d))], r.Range(1, 20))
@@ -1041,7 +1041,7 @@ func main() {
 	}
 
 	// ----- generated containers -----
-	for i := 0; i < c.N(120, 2500); i++ {
+	for i := 0; i < c.N(120, 700); i++ {
 		n := r.Intn(6)
 		if r.Chance(1, 10) {
 			n = r.Range(6, 20)
@@ -1078,7 +1078,7 @@ func main() {
 		containerEncode("random-big", ms, r.Bytes(3), true, false)
 	}
 	// ----- results and plaintext messages -----
-	for i := 0; i < c.N(70, 2000); i++ {
+	for i := 0; i < c.N(70, 450); i++ {
 		body := r.Bytes(r.Intn(80))
 		resultCases("random", int64(r.U64()), body)
 		var b bin.Buffer
@@ -1092,7 +1092,7 @@ func main() {
 		unencDecode("mutated", mutate(r, ub.Buf))
 	}
 	// ----- gzip: random payloads, corrupted members -----
-	for i := 0; i < c.N(50, 1500); i++ {
+	for i := 0; i < c.N(50, 350); i++ {
 		var d []byte
 		switch r.Intn(4) {
 		case 0:
@@ -1117,7 +1117,7 @@ func main() {
 		reuseSeq(kind, [][]byte{encodedFor(r, kind, 40), encodedFor(r, kind, 12), encodedFor(r, kind, 0), encodedFor(r, kind, 64), encodedFor(r, kind, 20)}, true)
 		// earlier values stay alive across later Decode AND Encode calls (pooled buffers)
 		reuseSeq(kind, [][]byte{encodedFor(r, kind, 300), encodedFor(r, kind, 200), r.Bytes(500), encodedFor(r, kind, 100), r.Bytes(50), encodedFor(r, kind, 400)}, false, 0, 0, 1, 0, 1, 0)
-		for i := 0; i < c.N(12, 400); i++ {
+		for i := 0; i < c.N(12, 100); i++ {
 			var seq [][]byte
 			for k := r.Range(2, 6); k > 0; k-- {
 				n := r.Intn(80)
@@ -1144,7 +1144,7 @@ func main() {
 	}
 
 	// ----- arbitrary bytes for every decoder -----
-	for i := 0; i < c.N(90, 3000); i++ {
+	for i := 0; i < c.N(90, 500); i++ {
 		in := r.Bytes(r.Intn(64))
 		if len(in) >= 4 {
 			switch r.Intn(5) {
